@@ -12,11 +12,12 @@ sys.path.insert(0, os.path.dirname(os.path.dirname(os.path.abspath(__file__))))
 import finfld_common as fc  # noqa: E402
 import common  # noqa: E402
 
-LEVEL = 'other'
+LEVEL = 'proof'
 LEAN_MODULES = ['MpycV.Props.C21']
 LEAN_NAMESPACES = ['MpycV.C21']
 REQUIRED_THEOREMS = ['is_sqr_iff', 'is_sqr_euler', 'sqrt_zero_inv_raises', 'sqrt_blum', 'sqrt_blum_inv', 'sqrt_two',
-                     'sqrt_cipolla_partial']
+                     'sqrt_cipolla_partial', 'ext_is_sqr_iff', 'ext_sqrt_zero_inv_raises', 'ext_sqrt_q3', 'ext_sqrt_q3_inv',
+                     'ext_sqrt_ts_partial', 'bin_sqrt', 'bin_sqrt_inv']
 RULE = ('case = (field, element, INV flag); EVERY element of every field of order q <= 128 (quick; all prime powers: '
         'p = 2, p = 3 mod 4, p = 1 mod 4, extension fields with q = 1 and 3 mod 4, binary fields) plus a seeded sample of '
         'fields with 128 < q <= 1000 (thorough: every q <= 1000), plus random squares x*x and random elements of '
@@ -25,7 +26,10 @@ RULE = ('case = (field, element, INV flag); EVERY element of every field of orde
 EXPLANATION = ('proved for all inputs: is_sqr in every prime field (the jacobi stub equals the Legendre symbol), sqrt and '
                'sqrt(INV) for every prime p = 3 mod 4, p = 2, zero/INV raising; Cipolla-Lehmer branch (p = 1 mod 4): '
                'kernel-checked exhaustively for all 21 primes below 200, every element (`sqrt_cipolla_partial`), validated '
-               'by correspondence + oracle beyond; extension/binary fields: see part 2 of MpycV/Props/C21.lean')
+               'by correspondence + oracle beyond; extension fields (every prime, every irreducible modulus): is_sqr for odd q, '
+               'sqrt and sqrt(INV) for q = 3 mod 4, zero/INV raising; binary fields: Frobenius root and its inverse; '
+               'Tonelli-Shanks branch (q = 1 mod 4): kernel-checked for every element of GF(9), GF(25), GF(49), GF(81), GF(121), '
+               'GF(125) (`ext_sqrt_ts_partial`), validated by correspondence + oracle beyond')
 ASSUMPTIONS = ['gmpy2 modelled by the stubs of mpyc/gmpy.py (legendre = jacobi loop, powmod = built-in pow, invert = '
                'extended Euclid)', 'polynomial arithmetic of gfpx.py as modelled by area GFpX']
 TRUSTED = ['harness/finfld_common.py', 'harness/finfld_oracle.py']
